@@ -250,7 +250,8 @@ pub mod implementations {
                 bail!("vec_op +push operations require only a single item on the operating stack")
             }
 
-            let new_val = ctx.pop().unwrap();
+            // an element read through a pointer (`[a[0], f()]`) is stored by value, so a later element cannot change it
+            let new_val = ctx.pop().unwrap().move_out_of_heap_primitive()?;
 
             let primitive_with_flags: PrimitiveFlagsPair = ctx
                 .load_local(&op_name[1..])
